@@ -8,7 +8,7 @@ from ..errors import AnalysisError
 from ..px import OK, PX, RAISE, Outcomes
 from ..pxv import Obj, Sym
 from ..te import ClassRef, FuncRef, Member, TypeRef
-from .util import self_obj
+from .util import same_class, self_obj
 
 APP = "bellows.zigbee.application"
 UTIL = "bellows.zigbee.util"
@@ -40,7 +40,7 @@ def explore_write(ctx, version=8, hashed="aa"):
     f = repo.func(f"{APP}:ControllerApplication.write_network_info")
     models = [wrap("t.KeyData"), wrap("t.EUI64"), wrap("t.Channels"), ("util.zha_security", lambda px, t, a, k, fr: Sym("isc")),
               ("os.urandom", lambda px, t, a, k, fr: b"\x01" * 16)]
-    px = PX(repo, models=models, inline=lambda g, aw: False, max_paths=5000)
+    px = PX(repo, models=models, inline=same_class(stop=("reset_network_info", "_reset", "_ensure_network_running")), max_paths=5000)
 
     def setup():
         ni = Obj(TypeRef("NetworkInfo"), {"stack_specific": {"ezsp": {"hashed_tclk": hashed}} if hashed else {},
@@ -123,7 +123,7 @@ def explore_load(ctx, bitmask, load_devices=False):
               ("ezsp.getCurrentSecurityState", Outcomes(OK((es["SUCCESS"], state)))),
               ("self._ensure_network_running", Outcomes(OK(False))),
               ("zigpy.types.KeyData", lambda px, t, a, k, fr: Obj(TypeRef("KeyData"), {"v": a[0]}, tag="wellknown"))]
-    px = PX(repo, models=models, inline=lambda f, aw: f.name == "from_ember_status", max_paths=2000,
+    px = PX(repo, models=models, inline=same_class(), max_paths=2000,
             facts={"(self.state.node_info.logical_type == zigpy.zdo.types.LogicalType.Coordinator)": True})
     return px.explore(g, lambda: (self_obj(app_cls(ctx), {"_ezsp": Obj(TypeRef("EZSP"), {"ezsp_version": 8}, tag="ezsp")}), {"load_devices": load_devices}))
 
@@ -171,7 +171,7 @@ def r14_3(ctx):
               ("bytes.fromhex", lambda px, t, a, k, fr: Sym(f"hex:{a[0]}")), ("zigpy_t.KeyData", lambda px, t, a, k, fr: Sym("wellknown"))]
     for known in (True, False):
         for hashed in (True, False):
-            px = PX(repo, models=models, inline=lambda g, aw: False,
+            px = PX(repo, models=models, inline=same_class(),
                     facts={"(ni.tclk.partner == zigpy_t.EUI64.UNKNOWN)": not known, "(EUI64.UNKNOWN == ni.tclk.partner)": not known,
                            "(ni.tclk.key == wellknown)": True})
 
@@ -238,7 +238,7 @@ def r14_4(ctx):
     models = [wrap("t.KeyData"), wrap("t.EUI64"), wrap("zigpy_t.KeyData"), ("zigpy.state.Key", lambda px, t, a, k, fr: Obj(TypeRef("zigpy.state.Key"), dict(k), tag="zkey"))]
     triples_e, triples_z = set(), set()
     for fld in KEY_FIELDS:
-        px = PX(repo, models=models, inline=lambda g, aw: False)
+        px = PX(repo, models=models, inline=same_class())
 
         def setup():
             zk = Obj(TypeRef("Key"), {"key": Sym("zk.key"), **{n: (Sym(f"zk.{n}") if n == fld else None) for n in KEY_FIELDS}}, tag="zk")
@@ -259,7 +259,7 @@ def r14_4(ctx):
             else:
                 ctx.violation(f"to_ezsp:{fld}", f"zigpy key with only `{fld}` set produces flags {set_flags} and struct fields {set_fields}", func=to_e)
     for v, fname in flags.items():
-        px = PX(repo, models=models, inline=lambda g, aw: False)
+        px = PX(repo, models=models, inline=same_class())
 
         def setup():
             ek = Obj(repo.cls("bellows.types.struct", "EmberKeyStruct"), {"bitmask": Member(bm, fname, v), "key": Sym("ek.key")}, tag="ek")
@@ -329,7 +329,7 @@ def r14_6(ctx):
             m = c.method(meth)
             px = PX(repo, models=[("self.networkState", Outcomes(OK((repo.cls(NAMED, "EmberNetworkStatus").members()["NO_NETWORK"],)))),
                                   ("self.setValue", Outcomes(OK((repo.cls(NAMED, "EmberStatus").members()["SUCCESS"],))))],
-                    inline=lambda g, aw: g.name == "from_ember_status")
+                    inline=same_class())
             for p in px.explore(m, lambda: (self_obj(c, {}), {"frame_counter": 0x01020304})):
                 sv = [e for e in p.events if e.kind == "await" and e.what == "self.setValue"]
                 if v == 4:
@@ -347,7 +347,7 @@ def r14_6(ctx):
             exp = Outcomes(OK((Sym("exported_key"), sl))) if v == 13 else Outcomes(OK((sl, Sym("exported_key"), Sym("ctx"))))
             px = PX(repo, models=[("self.exportKey", exp), ("self.getNetworkKeyInfo", Outcomes(OK((sl, info)))),
                                   ("zigpy.state.Key", lambda px_, t, a, k, fr: Obj(TypeRef("zigpy.state.Key"), dict(k), tag="zkey"))],
-                    inline=lambda g, aw: g.name == "from_ember_status")
+                    inline=same_class())
             for p in px.explore(m, lambda: (self_obj(c, {}), {})):
                 z = p.value
                 ok = (p.terminal == "return" and isinstance(z, Obj) and z.fields.get("key") == Sym("exported_key") and z.fields.get("tx_counter") == Sym("info.fc")
